@@ -253,6 +253,20 @@ fn degenerate_case<const N: usize>(ctx: &mut Ctx, idx: usize) {
     let book = ctx.book.clone();
     let (kp, kpd) = des_keypair::<N>(ctx);
     let ms = edge_vec(&mut ctx.prng, N);
+    // "every signature produced by signing verifies" — also under a stream whose scalar draws start with zeros
+    // (checked with the independent two-pairing oracle, before and independently of the model comparison)
+    {
+        let mut rng0 = ScriptedRng::new(ctx.prng.gen(), book.clone());
+        rng0.force_scalars(&[Scalar::zero(), Scalar::zero()]);
+        let sigz = wire::msg::<N>(&ms).sign(&mut rng0, &kp);
+        ctx.evals += 1;
+        let good = sigz.is_well_formed() && oracle(kp.public_key(), &sigz, &ms) && sigz.verify(kp.public_key(), &wire::msg::<N>(&ms));
+        ctx.count(&format!("sign-under-zero-scalar-draws:{}", if good { "verifies" } else { "BROKEN" }));
+        if !good {
+            ctx.violation("a signature produced by sign() under a stream whose scalar draws start with zeros does not verify on its own message",
+                serde_json::json!({"class": "sign-degenerate-stream", "N": N, "message": hex_list(&ms)}));
+        }
+    }
     let mut rng = ScriptedRng::new(ctx.prng.gen(), book.clone());
     let sig0 = wire::msg::<N>(&ms).sign(&mut rng, &kp);
     let h = match book.dlog_g1(&sig0.sigma1()) { Some(h) => h, None => { ctx.broken("sigma1 is not the scripted G1 draw"); return; } };
